@@ -54,8 +54,8 @@ RowViol(n) ==
      \cup (IF r.out = "ScenarioError" /\ ~r.sameobs THEN {"C11_rejected_call_left_dataflow_behind"} ELSE {})
      \* history rows: the call is made after an earlier REFUSED call of the same world (or after a group block that an exception
      \* left) - "raises exactly when" and "a rejected pair leaves no data-flow behind" mean that this history is irrelevant
-     \cup (IF "prior" \in DOMAIN r /\ r.prior_out # "ScenarioError" THEN {"C11_wrong_exception"} ELSE {})
-     \cup (IF "prior" \in DOMAIN r /\ ~r.priorsame THEN {"C11_earlier_refused_call_or_abandoned_group_changed_the_result"} ELSE {})
+     \cup (IF "prior" \in DOMAIN r /\ r.prior_must_fail /\ r.prior_out # "ScenarioError" THEN {"C11_wrong_exception"} ELSE {})
+     \cup (IF "prior" \in DOMAIN r /\ ~r.priorsame THEN {"C11_earlier_calls_of_the_same_world_changed_the_result"} ELSE {})
 
 ChunkViol(k) == UNION {{<<c, n>> : c \in RowViol(n)} : n \in ((k - 1) * Chunk + 1)..(IF k * Chunk < NR THEN k * Chunk ELSE NR)}
 
